@@ -54,6 +54,10 @@ def build(t):
         return AffineExpr.dimension(t[1])
     if k == "s":
         return AffineExpr.symbol(0)
+    if k in ("+", "-", "*") and len(t) > 3 and t[3] == "L" and t[1][0] == "c":
+        # a Python int on the LEFT of the operator (reflected operators __radd__ / __rsub__ / __rmul__)
+        b = build(t[2])
+        return t[1][1] + b if k == "+" else t[1][1] - b if k == "-" else t[1][1] * b
     a = build(t[1])
     if k == "neg":
         return -a
@@ -216,6 +220,26 @@ def explore(tier, seed):
                     if f and f["key"] not in seen:
                         seen.add(f["key"])
                         fails.append(f)
+    # a Python int on the left of + - * (reflected operators)
+    for o in ("+", "-", "*"):
+        for cst in (-2, 0, 1, 3):
+            for rhs in (("d", 0), ("c", 4), ("+", ("*", ("d", 0), ("c", 2), True), ("c", 1)), ("s", 0)):
+                cases += 1
+                f = check_tree((o, ("c", cst), rhs, "L"))
+                if f and f["key"] not in seen:
+                    seen.add(f["key"])
+                    fails.append(f)
+    # constant folding on integers that a binary64 cannot represent exactly (affine constants are unbounded Python ints)
+    for a in (2**53 + 1, -(2**53 + 1), 2**62 + 3, 10**18 + 7, -(10**18) - 7):
+        for b in (1, 2, 3, 7):
+            for o in ("floordiv", "ceildiv", "mod", "+", "-", "*"):
+                t = (o, ("c", a), ("c", b), True) if o in ("floordiv", "ceildiv", "mod", "*") else (o, ("c", a), ("c", b))
+                for t2 in (t, ("+", t, ("d", 0))):
+                    cases += 1
+                    f = check_tree(t2)
+                    if f and f["key"] not in seen:
+                        seen.add(f["key"])
+                        fails.append(f)
     # a division-like operator by a constant applied directly to another one: (e OP1 c1) OP2 c2, every pair of small constants (divisor / multiple / coprime pairs)
     CS = (1, 2, 3, 4, 6) if tier == "quick" else (1, 2, 3, 4, 5, 6, 8, 12)
     for e in (("d", 0), ("+", ("*", ("d", 0), ("c", 2), True), ("c", 1))):
@@ -233,4 +257,4 @@ def explore(tier, seed):
             "bound": f"{n} seeded expression trees of depth <= 3 over d0, d1, s0 and constants (+, -, neg, * by constants, floordiv/ceildiv/mod by positive "
                      f"constants, int and AffineExpr operands); build / simplify / replace_dims_and_symbols / compose / print+parse, each evaluated on "
                      f"all {len(ENVS)} assignments of a box against an independent evaluator; plus the exhaustive linear family (a*d0 + b*s0 + c) "
-                     f"floordiv/ceildiv/mod k over small coefficient grids, sums of two division-like terms over the same (or gcd-reduced) linear numerator, and every nesting (e OP1 c1) OP2 c2 of two division-like operators by small constants"}
+                     f"floordiv/ceildiv/mod k over small coefficient grids, sums of two division-like terms over the same (or gcd-reduced) linear numerator, every nesting (e OP1 c1) OP2 c2 of two division-like operators by small constants, constant folding of every binary operator on constants beyond 2^53, and + - * with a Python int as the LEFT operand"}
